@@ -8,6 +8,7 @@ from .. import paths
 from ..core import FUNC, AnalysisError, inert, call_attr, calls_in, const, dotted, is_const, kwarg, norm, slice_parts, text, walk_local
 
 EXPLANATION = [
+    "C20.empty-parameters: AtCommand.parse_from calls at.parse_parameters only under the truth of the parameter text: a SET command with nothing after '=' has an empty parameter list.",
     'C20.listener-cleanup: every `on/once(event, future.set_result|set_exception)` made by a coroutine of hfp / rfcomm is undone by a remove_listener in a finally of that coroutine, so an abandoned wait leaves no listener that would raise at the next emit (second final result code).',
     "C20.mux-teardown: every method of rfcomm.Multiplexer that takes it to DISCONNECTED completes a pending disconnect() on each path that performs the transition (the UA answering our DISC and the peer's crossing DISC alike).",
     'C20.enum-agreement: the set / dict attributes of AgProtocol and HfProtocol are tested and emptied (discard, remove, in) with members of the enum types they are filled with: a member of another enum spelled alike is a different key.',
@@ -1299,7 +1300,29 @@ def listener_cleanup(ctx):
     R.check(n >= 1, rule, 'bumble.hfp, bumble.rfcomm | future listeners', f'{n} registrations of a future\'s setter as listener', 'no registration found (anchor moved)')
 
 
+def empty_parameters(ctx):
+    """`AT+BAC=` / `AT+BIND=` with nothing after the '=' (a hands-free with an empty codec or indicator list) carries no
+    parameter: AtCommand.parse_from calls the parameter parser only when there is parameter text (the parser turns b'' into
+    one empty parameter, which the handlers cannot convert)."""
+    R, p = ctx.r, ctx.p
+    rule = 'C20.empty-parameters'
+    fn = p.find('bumble.hfp.AtCommand.parse_from')
+    if fn is None:
+        R.bad(rule, 'bumble.hfp.AtCommand.parse_from', 'anchor missing')
+        return
+    calls = [c for c in calls_in(fn) if dotted(c.func) == 'at.parse_parameters']
+    R.check(len(calls) == 1, rule, 'bumble.hfp.AtCommand.parse_from | parameter parser', 'one call', f'{len(calls)} calls', p.loc(fn))
+    for c in calls:
+        arg = c.args[0]
+        base = arg.func.value if isinstance(arg, ast.Call) and isinstance(arg.func, ast.Attribute) and arg.func.attr == 'encode' else arg
+        nm = base.id if isinstance(base, ast.Name) else None
+        g = paths.flat_guards(c, stop=fn)
+        ok = nm is not None and any(pol and (norm(t) == nm or (isinstance(t, ast.NamedExpr) and t.target.id == nm)) for t, pol in g)
+        R.check(ok, rule, 'bumble.hfp.AtCommand.parse_from | only with parameter text', f'parse_parameters runs only when `{nm}` is non-empty', 'the parameter parser can run on an empty parameter text (it returns one empty parameter): AT+BAC= / AT+BIND= from a hands-free with an empty list are answered ERROR and the service-level connection is never completed', p.loc(c))
+
+
 RULES = [
+    ('C20.empty-parameters', empty_parameters),
     ('C20.listener-cleanup', listener_cleanup),
     ('C20.mux-teardown', mux_teardown),
     ('C20.enum-agreement', enum_agreement_rule),
